@@ -1,6 +1,7 @@
 import FerrousSpec.Model.Aof
 import FerrousSpec.Proofs.AofNorm
 import FerrousSpec.Proofs.AofFrames
+import FerrousSpec.Proofs.AofRandom
 import FerrousSpec.Proofs.Decimal
 set_option linter.unusedSimpArgs false
 set_option linter.unusedVariables false
@@ -120,6 +121,94 @@ theorem step_sim (q : Quirks) (s1 s2 : Store) (hA : Agree s1 s2) (i now1 now2 : 
       rw [hobs]
       exact stepDb_sim q _ _ (hA.getDb i) now1 now2 _ args obs1
 
+/-! ## SPOP logged by its effect -/
+
+theorem step_cons_snd (q : Quirks) (s : Store) (i now : Nat) (n : Bytes) (args : List Bytes) (obs : Option (List Bytes))
+    (hf : nameOf (n :: args) ≠ "FLUSHALL") :
+    (step q s i now (n :: args) obs).2 = (stepDb q (purge now (getDb s i)) now (nameOf (n :: args)) args obs).2 := by
+  unfold step nameOf at *
+  simp only [] at hf ⊢
+  simp only [hf, if_false]
+
+theorem step_cons_ne (q : Quirks) (s : Store) (i now : Nat) (n : Bytes) (args : List Bytes) (obs : Option (List Bytes))
+    (hf : nameOf (n :: args) ≠ "FLUSHALL") :
+    (step q s i now (n :: args) obs).1 = setDb s i (stepDb q (purge now (getDb s i)) now (nameOf (n :: args)) args obs).1 := by
+  rw [step_cons]
+  simp only [hf, if_false]
+
+def sremCmd (key : Bytes) (got : List Bytes) : List Bytes := [83, 82, 69, 77] :: key :: got
+
+theorem nameOf_sremCmd (key : Bytes) (got : List Bytes) : nameOf (sremCmd key got) = "SREM" := by
+  simp only [sremCmd, nameOf]
+  decide
+
+/-- a SPOP that took `m…` and the SREM of `m…`, on the same store at the same instant -/
+theorem step_spop_drawn (q : Quirks) (s : Store) (i now : Nat) (n key : Bytes) (rest : List Bytes) (m : Bytes) (ms : List Bytes)
+    (o' : Option (List Bytes))
+    (hname : nameOf (n :: key :: rest) = "SPOP")
+    (hok : isErrReply (step q s i now (n :: key :: rest) (some (m :: ms))).2 = false) :
+    (step q s i now (n :: key :: rest) (some (m :: ms))).1 = (step q s i now (sremCmd key (m :: ms)) o').1 := by
+  have hf : nameOf (n :: key :: rest) ≠ "FLUSHALL" := by rw [hname]; decide
+  have hs := nameOf_sremCmd key (m :: ms)
+  have hf2 : nameOf (sremCmd key (m :: ms)) ≠ "FLUSHALL" := by rw [hs]; decide
+  rw [step_cons_snd q s i now n (key :: rest) _ hf, hname, isErrReply_eq] at hok
+  rw [step_cons_ne q s i now n (key :: rest) _ hf, hname]
+  unfold sremCmd at hs hf2 ⊢
+  rw [step_cons_ne q s i now _ (key :: m :: ms) _ hf2, hs]
+  congr 1
+  have h1 : stepDb q (purge now (getDb s i)) now "SPOP" (key :: rest) (some (m :: ms)) =
+      cmdSpop (purge now (getDb s i)) (key :: rest) (some (m :: ms)) := rfl
+  have h2 : stepDb q (purge now (getDb s i)) now "SREM" (key :: m :: ms) o' = cmdSrem (purge now (getDb s i)) (key :: m :: ms) := rfl
+  rw [h1] at hok ⊢
+  rw [h2]
+  exact spop_as_srem _ key rest (m :: ms) (by simp) hok
+
+/-- a SPOP that took nothing leaves a well-formed store as it is (no deadline having passed) -/
+theorem step_spop_nodraw (q : Quirks) (s : Store) (hs : StoreOk s) (i now : Nat) (raw : List Bytes) (obs : Option (List Bytes))
+    (hname : nameOf raw = "SPOP") (hq : purge now (getDb s i) = getDb s i)
+    (hno : obs.getD [] = [] ∨ raw.length < 2) : (step q s i now raw obs).1 = s := by
+  cases raw with
+  | nil => simp [nameOf] at hname
+  | cons n args =>
+    have hf : nameOf (n :: args) ≠ "FLUSHALL" := by rw [hname]; decide
+    rw [step_cons_ne q s i now n args obs hf, hname, hq]
+    have h1 : stepDb q (getDb s i) now "SPOP" args obs = cmdSpop (getDb s i) args obs := rfl
+    have hno' : obs.getD [] = [] ∨ args = [] := by
+      rcases hno with h | h
+      · exact Or.inl h
+      · right
+        cases args with
+        | nil => rfl
+        | cons a t => simp at h; omega
+    rw [h1, cmdSpop_nodraw (getDb s i) (getDb_ok hs i) args obs hno', setDb_getDb_self]
+
+/-- how the entry of a command of the table is formed -/
+theorem entryOf_cases (eff : Bool) (raw : List Bytes) (obs : Option (List Bytes)) :
+    (entryOf eff raw obs = some raw ∧ ¬ (eff = true ∧ nameOf raw = "SPOP")) ∨
+    (eff = true ∧ nameOf raw = "SPOP" ∧
+      ((∃ n key rest m ms, raw = n :: key :: rest ∧ obs = some (m :: ms) ∧ entryOf eff raw obs = some (sremCmd key (m :: ms))) ∨
+       (entryOf eff raw obs = none ∧ (obs.getD [] = [] ∨ raw.length < 2)))) ∨
+    (eff = true ∧ nameOf raw = "XADD" ∧ raw[2]? = some [42]) := by
+  unfold entryOf
+  by_cases h1 : eff = true ∧ nameOf raw = "SPOP"
+  · right; left
+    refine ⟨h1.1, h1.2, ?_⟩
+    simp only [h1, and_self, if_true]
+    rcases raw with _ | ⟨n, _ | ⟨key, rest⟩⟩
+    · right; simp
+    · right; simp
+    · cases obs with
+      | none => right; simp
+      | some got =>
+        cases got with
+        | nil => right; simp
+        | cons m ms => left; exact ⟨n, key, rest, m, ms, rfl, rfl, rfl⟩
+  · by_cases h2 : eff = true ∧ nameOf raw = "XADD" ∧ raw[2]? = some [42]
+    · right; right; exact h2
+    · left
+      refine ⟨?_, h1⟩
+      simp only [h1, if_false, h2]
+
 /-! ## Entries of the log and what replaying them does -/
 
 theorem nameOf_selectCmd (d : Nat) : nameOf (selectCmd d) = "SELECT" := by
@@ -236,7 +325,8 @@ theorem map_eq_nil' {α β : Type} {f : α → β} {l : List α} (h : l.map f = 
 theorem ev_sim (q : Quirks) (cfg : Cfg) (hwf : cfg.wf = true) (ev : Ev) (cL cR : Conn) (st : LogSt)
     (hI : Inv cL st cR) (es : List REntry) (hes : es.map (·.cmd) = (logEv cfg st ev).1)
     (hin : inModel ev = true) (hcov : covered cfg st ev = true)
-    (hqL : quietStep cL (evDb cL ev) (evNow ev) = true) (hqR : quietReplay q cR es = true) :
+    (hqL : quietStep cL (evDb cL ev) (evNow ev) = true) (hqR : quietReplay q cR es = true)
+    (hok : StoreOk cL.store) (hdraw : drawOk q cL ev = true) :
     Inv (execEv q cL ev) (logEv cfg st ev).2 (replayFrom q cR es) := by
   have hselw : isWrite cfg.writes "SELECT" = false := by
     unfold Cfg.wf at hwf
@@ -264,20 +354,64 @@ theorem ev_sim (q : Quirks) (cfg : Cfg) (hwf : cfg.wf = true) (ev : Ev) (cL cR :
       simp only [covered, hs, false_or, decide_eq_true_eq, Bool.decide_and, Bool.and_eq_true, Bool.decide_eq_true,
         Bool.not_eq_true', Bool.not_eq_eq_eq_not, Bool.not_true, decide_eq_false_iff_not] at hcov
       by_cases hw : isWrite cfg.writes (nameOf raw) = true
-      · -- appended before dispatch; replayed in the database it ran in
+      · -- in the table
         simp only [logEv, hw, if_true, hs, if_false] at hes ⊢
-        have hnr : effName raw ≠ "SPOP" := by
-          intro h
-          have := hcov.2.1
-          rw [h] at this
-          exact absurd this (by decide)
         have hdb : cfg.logSelect = true ∨ st.conn = st.file := by
           rcases hcov.2.2 hw with h | h
           · exact Or.inl h
           · exact Or.inr h
         rw [hI.conn] at hdb hes ⊢
-        have := replay_entries_sim q cfg st cL.cur hI.lt raw hs hnr hdb cL.store now obs hqL' cR hI.file hI.agree es hes hqR
-        exact ⟨this.1, rfl, this.2.symm, hI.lt⟩
+        rcases entryOf_cases cfg.byEffect raw obs with ⟨he, hne⟩ | ⟨heff, hsp, hcase⟩ | ⟨heff, hx, hstar⟩
+        · -- appended verbatim before dispatch; replayed in the database it ran in
+          rw [he] at hes ⊢
+          simp only at hes ⊢
+          have hnr : effName raw ≠ "SPOP" := by
+            intro h
+            rcases hcov.2.1 with h' | h'
+            · rw [h] at h'; exact absurd h' (by decide)
+            · exact hne h'
+          have := replay_entries_sim q cfg st cL.cur hI.lt raw hs hnr hdb cL.store now obs hqL' cR hI.file hI.agree es hes hqR
+          exact ⟨this.1, rfl, this.2.symm, hI.lt⟩
+        · -- SPOP logged by its effect
+          have hne : nameOf raw ≠ "EVAL" := by rw [hsp]; decide
+          have heffc : effCmd raw = raw := by unfold effCmd; rw [unwrap_of_name_ne raw hne]; rfl
+          rw [heffc]
+          rcases hcase with ⟨n, key, rest, m, ms, hraw, hobs, he⟩ | ⟨he, hno⟩
+          · -- it took `m :: ms`: the entry is `SREM key m…`
+            rw [he] at hes ⊢
+            simp only at hes ⊢
+            subst hraw hobs
+            have hd : isErrReply (KS.step q cL.store cL.cur now (n :: key :: rest) (some (m :: ms))).2 = false := by
+              simp only [drawOk, hsp, Option.getD_some, decide_eq_true_eq] at hdraw
+              exact hdraw trivial (by simp)
+            rw [step_spop_drawn q cL.store cL.cur now n key rest m ms none hsp hd]
+            have hsn := nameOf_sremCmd key (m :: ms)
+            have hns2 : nameOf (sremCmd key (m :: ms)) ≠ "SELECT" := by rw [hsn]; decide
+            have hne2 : nameOf (sremCmd key (m :: ms)) ≠ "EVAL" := by rw [hsn]; decide
+            have hun : unwrap (sremCmd key (m :: ms)) = none := unwrap_of_name_ne _ hne2
+            have heff2 : effCmd (sremCmd key (m :: ms)) = sremCmd key (m :: ms) := by unfold effCmd; rw [hun]; rfl
+            have hnr2 : effName (sremCmd key (m :: ms)) ≠ "SPOP" := by
+              unfold effName; rw [hun]; simp only; rw [hsn]; decide
+            have := replay_entries_sim q cfg st cL.cur hI.lt (sremCmd key (m :: ms)) hns2 hnr2 hdb cL.store now none hqL' cR
+              hI.file hI.agree es hes hqR
+            rw [heff2] at this
+            exact ⟨this.1, rfl, this.2.symm, hI.lt⟩
+          · -- it took nothing: no entry, and nothing changed
+            rw [he] at hes ⊢
+            simp only at hes ⊢
+            have hnil := map_eq_nil' hes
+            subst hnil
+            simp only [replayFrom, List.foldl_nil]
+            rw [step_spop_nodraw q cL.store hok cL.cur now raw obs hsp hqL' hno]
+            exact ⟨hI.agree, rfl, hI.file, hI.lt⟩
+        · -- `XADD key * …`: an id drawn from the clock is outside the model
+          exfalso
+          have hne : nameOf raw ≠ "EVAL" := by rw [hx]; decide
+          have hun : unwrap raw = none := unwrap_of_name_ne raw hne
+          simp only [inModel, effName, effCmd, hun, Option.getD_none, hx, hstar, decide_eq_true_eq] at hin
+          rcases hin with h | h
+          · exact absurd h (by decide)
+          · exact h.2 ⟨trivial, trivial⟩
       · -- not in the table: it must be read-only, and then it changed nothing
         have hw' : isWrite cfg.writes (nameOf raw) = false := by simpa using hw
         simp only [logEv, hw', Bool.false_eq_true, if_false, hs] at hes ⊢
@@ -321,45 +455,81 @@ theorem replayFrom_append (q : Quirks) (c : Conn) (a b : List REntry) :
     replayFrom q c (a ++ b) = replayFrom q (replayFrom q c a) b := by
   simp [replayFrom, List.foldl_append]
 
+theorem execEv_ok (q : Quirks) (c : Conn) (ev : Ev) (h : StoreOk c.store) : StoreOk (execEv q c ev).store := by
+  cases ev with
+  | cmd ve now obs raw =>
+    simp only [execEv, execRaw]
+    split
+    · exact h
+    · split <;> exact step_pres q _ _ _ _ _ h
+  | wake db now left key =>
+    simp only [execEv]
+    exact step_pres q _ _ _ _ _ h
+
 /-- MAIN LEMMA: from agreeing states, a history every event of which the log covers, and any replay of the entries it
-    leaves (at any instants, with any draws) end in agreeing stores — provided no deadline passes on either side. -/
+    leaves (at any instants, with any draws) end in agreeing stores — provided no deadline passes on either side
+    (and the draws reported for SPOPs logged by their effect are what those commands took). -/
 theorem replay_sim (q : Quirks) (cfg : Cfg) (hwf : cfg.wf = true) :
     ∀ (h : List Ev) (cL cR : Conn) (st : LogSt) (es : List REntry),
-      Inv cL st cR → es.map (·.cmd) = logFrom cfg st h → (∀ ev ∈ h, inModel ev = true) →
-      coveredFrom cfg st h = true → quietLive q cL h = true → quietReplay q cR es = true →
+      Inv cL st cR → StoreOk cL.store → es.map (·.cmd) = logFrom cfg st h → (∀ ev ∈ h, inModel ev = true) →
+      coveredFrom cfg st h = true → quietLive q cL h = true → quietReplay q cR es = true → drawsOk q cL h = true →
       Agree (liveFrom q cL h).store (replayFrom q cR es).store := by
   intro h
   induction h with
   | nil =>
-    intro cL cR st es hI hes _ _ _ _
+    intro cL cR st es hI _ hes _ _ _ _ _
     simp only [logFrom] at hes
     have := map_eq_nil' hes
     subst this
     exact hI.agree
   | cons ev t ih =>
-    intro cL cR st es hI hes hin hcov hqL hqR
+    intro cL cR st es hI hok hes hin hcov hqL hqR hdr
     simp only [logFrom] at hes
     obtain ⟨es1, es2, rfl, h1, h2⟩ := List.map_eq_append_iff.mp hes
     simp only [coveredFrom, Bool.and_eq_true] at hcov
     simp only [quietLive, Bool.and_eq_true] at hqL
+    simp only [drawsOk, Bool.and_eq_true] at hdr
     rw [quietReplay_append, Bool.and_eq_true] at hqR
-    have hI' := ev_sim q cfg hwf ev cL cR st hI es1 h1 (hin ev (by simp)) hcov.1 hqL.1 hqR.1
+    have hI' := ev_sim q cfg hwf ev cL cR st hI es1 h1 (hin ev (by simp)) hcov.1 hqL.1 hqR.1 hok hdr.1
     rw [replayFrom_append]
     simp only [liveFrom, List.foldl_cons]
-    exact ih (execEv q cL ev) (replayFrom q cR es1) (logEv cfg st ev).2 es2 hI' h2
-      (fun e he => hin e (by simp [he])) hcov.2 hqL.2 hqR.2
+    exact ih (execEv q cL ev) (replayFrom q cR es1) (logEv cfg st ev).2 es2 hI' (execEv_ok q cL ev hok) h2
+      (fun e he => hin e (by simp [he])) hcov.2 hqL.2 hqR.2 hdr.2
+
+/-- without SPOP in the history the draws are trivially sound -/
+theorem drawsOk_of_no_spop (q : Quirks) : ∀ (h : List Ev) (c : Conn),
+    (∀ raw ∈ rawsOf h, nameOf raw ≠ "SPOP") → drawsOk q c h = true := by
+  intro h
+  induction h with
+  | nil => intro c _; rfl
+  | cons ev t ih =>
+    intro c hn
+    simp only [drawsOk, Bool.and_eq_true]
+    constructor
+    · cases ev with
+      | cmd ve now obs raw =>
+        have := hn raw (by simp [rawsOf])
+        simp [drawOk, this]
+      | wake db now left key => rfl
+    · apply ih
+      intro raw hraw
+      apply hn
+      cases ev with
+      | cmd ve now obs raw' => simp [rawsOf, hraw]
+      | wake db now left key => simpa [rawsOf] using hraw
 
 /-! ## Corollaries used by the property theorems -/
 
 
 theorem inv_init : Inv {} {} {} := ⟨rfl, rfl, rfl, by decide⟩
 
-/-- with SELECT tracking, wake-up logging and a table that contains every mutating name and EVAL, every event
-    except a random write is covered -/
-theorem coveredFrom_fixed (w : List String) (hall : ∀ n ∈ Spec.writeNames, n ∈ w) (heval : "EVAL" ∈ w) :
+/-- with SELECT tracking, pops made for blocking clients logged and a table that contains every mutating name and
+    EVAL, every event is covered except a random write logged verbatim (SPOP inside a script; any SPOP without
+    by-effect logging) -/
+theorem coveredFrom_tracked (w : List String) (eff : Bool) (hall : ∀ n ∈ Spec.writeNames, n ∈ w) (heval : "EVAL" ∈ w) :
     ∀ (h : List Ev) (st : LogSt),
-      (∀ raw, raw ∈ rawsOf h → ¬ Spec.randomWrites.contains (effName raw) = true) →
-      coveredFrom (Cfg.fixed w) st h = true := by
+      (∀ raw, raw ∈ rawsOf h → ¬ Spec.randomWrites.contains (effName raw) = true ∨ (eff = true ∧ nameOf raw = "SPOP")) →
+      coveredFrom (Cfg.treeE w true true eff) st h = true := by
   intro h
   induction h with
   | nil => intro st _; rfl
@@ -369,7 +539,7 @@ theorem coveredFrom_fixed (w : List String) (hall : ∀ n ∈ Spec.writeNames, n
     refine ⟨?_, ih _ (fun raw hraw => hr raw ?_)⟩
     · cases ev with
       | cmd ve now obs raw =>
-        simp only [covered, Cfg.fixed, decide_eq_true_eq]
+        simp only [covered, Cfg.treeE, decide_eq_true_eq]
         by_cases hs : nameOf raw = "SELECT"
         · exact Or.inl hs
         · right
@@ -389,11 +559,15 @@ theorem coveredFrom_fixed (w : List String) (hall : ∀ n ∈ Spec.writeNames, n
                 · simp [he] at hu
               rw [this]; exact heval
           · have := hr raw (by simp [rawsOf])
-            simpa using this
+            rcases this with h | h
+            · left; simpa using h
+            · right; exact h
       | wake db now left key =>
-        simp [covered, Cfg.fixed]
+        simp [covered, Cfg.treeE]
     · cases ev with
       | cmd ve now obs raw => simp [rawsOf, hraw]
       | wake db now left key => simpa [rawsOf] using hraw
+
+theorem fixed_eq_treeE (w : List String) : Cfg.fixed w = Cfg.treeE w true true true := rfl
 
 end Ferrous.Aof
